@@ -3,6 +3,7 @@ package main
 import (
 	"fmt"
 	"go/token"
+	"go/types"
 	"strings"
 
 	"golang.org/x/tools/go/ssa"
@@ -519,7 +520,7 @@ func runC04(c *Ctx) {
 				return
 			}
 			dx, dy := D(b.X), D(b.Y)
-			if !(strings.HasSuffix(dx, ".subGen") && dy == "arg:subGen") && !(strings.HasSuffix(dy, ".subGen") && dx == "arg:subGen") {
+			if !(strings.HasSuffix(dx, ".subGen") && paramOfKind(b.Y, types.Uint64)) && !(strings.HasSuffix(dy, ".subGen") && paramOfKind(b.X, types.Uint64)) {
 				return
 			}
 			found = true
